@@ -15,7 +15,7 @@ RULE = ("four case families. filter: line lists assembled from segments (complet
         "lines incl. ones containing the short needles 'reraise'/'value' and the marker texts) plus uniformly random words over the "
         "line alphabet (exhaustive up to length 4-5 in the thorough tier). chain: d = 1..50 (thorough: ..300) awaiting tasks, a "
         "handler mode per level (none / bare raise / raise e / store-yield-raise / raise new / swallow), await or synchronous call "
-        "per level, yield shape per level, raise in the body / k helper calls deep / ErrorFuture. stack: creator chains of depth "
+        "per level, yield shape per level, raise in the body / k helper calls deep / ErrorFuture / re-raise of an instance prepared by qcore.prepare_for_reraise elsewhere. stack: creator chains of depth "
         "1..50 (thorough: ..3000) where each level is created by its parent (yield or sync call), outside any task, or by a "
         "finished helper task. repr: every (kind, lifecycle state) cell driven through the public API (exhaustive list) plus random "
         "object trees (dependency trees deeper than the dump cut-off, schedulers with queues) put into arbitrary attribute states. "
@@ -25,8 +25,7 @@ TRUSTED = ["regular expressions that read status words back out of str()/repr()/
            "Pygments (syntax highlighting inside format_error) and the traceback module are exercised, not modelled",
            "CPython's rule for which frames a raise / re-raise / generator.throw adds to __traceback__ is modelled (Diag.v part B), not verified"]
 ASSUMPTIONS = ["user payloads (arguments, values, exception messages) have well-behaved __repr__/__str__ (DESIGN 5.21)",
-               "the interpreter recursion limit is the default 1000 (the deep creator chain finding depends on it)",
-               "exception instances reaching asynq were not prepared by qcore.prepare_for_reraise outside asynq beforehand"]
+               "the interpreter recursion limit is the default 1000 (the deep creator chain finding depends on it)"]
 
 PATTERNS = [
     (["asynq.async_task.AsyncTask._continue",
@@ -136,7 +135,8 @@ def gen_chain(rng, tier, malformed):
         nsync += h == "HSync"
         ms.append({"": [m, h]})
     r = rng.random()
-    bottom = {"BRaise": [{"n": rng.choice([0, 1, 1, 2, 3, 5])}]} if r < 0.8 else "BErrorFuture"
+    bottom = ({"BRaise": [{"n": rng.choice([0, 1, 1, 2, 3, 5])}]} if r < 0.75 else "BErrorFuture" if r < 0.92
+              else {"BPrepared": [{"n": rng.choice([0, 1, 2])}]})
     shapes = [rng.choice(["single", "single", "list", "tuple", "dict"]) for _ in range(d)]
     return {"tree": {"CChain": [ms, bottom]},
             "meta": {"family": "chain", "malformed": malformed, "pre_yields": rng.choice([0, 1, 1, 2, 5]), "shapes": shapes}}
@@ -346,6 +346,8 @@ CORPUS = cell_cases() + [
     mk_chain([("MPass", "HAwait"), ("MSwallow", "HAwait"), ("MPass", "HAwait")], {"BRaise": [{"n": 0}]}),
     mk_chain([("MReraise", "HSync")] * 3, {"BRaise": [{"n": 3}]}, pre_yields=0),
     mk_chain([("MPass", "HAwait")] * 49, {"BRaise": [{"n": 1}]}),
+    mk_chain([("MPass", "HAwait")] * 2, {"BPrepared": [{"n": 0}]}),
+    mk_chain([("MReraise", "HAwait"), ("MPass", "HSync"), ("MLater", "HAwait")], {"BPrepared": [{"n": 2}]}),
     {"tree": {"CStack": [[]]}, "meta": {"family": "stack"}},
     {"tree": {"CStack": [["ByParent"] * 3]}, "meta": {"family": "stack"}},
     {"tree": {"CStack": [["ByParent", "ByHelper", "BySync", "Pre", "ByParent"]]}, "meta": {"family": "stack"}},
@@ -401,6 +403,10 @@ def expected_chain(ms, bottom):
     if isinstance(bottom, dict) and "BRaise" in bottom:
         k = bottom["BRaise"][0]["n"]
         tail = [("hlp_%d" % j, 1, 1) for j in range(1, k + 1)]
+    elif isinstance(bottom, dict) and "BPrepared" in bottom:
+        # re-raising an instance keeps the frames of its earlier raise at the end, as in plain Python
+        k = bottom["BPrepared"][0]["n"]
+        tail = [("hlp_%d" % j, 1, 1) for j in range(1, k + 1)] + [("prep_site", 1, 1)]
     else:
         tail = []
     seq = [("lvl_%d" % (d - 1), 1, 1)] + tail      # innermost part, outermost first
@@ -483,6 +489,7 @@ def monitors(c, io, build):
             return [dict(clause="chain-one-frame-per-level", site="chain:no-exception-reached-caller", msg="the bottom raised but the caller saw no exception")]
         if obs.get("exc_type") != "Boom":
             fs.append(dict(clause="chain-one-frame-per-level", site="chain:wrong-exception-type:%s" % obs.get("exc_type"), msg="caller saw %s" % obs.get("exc_type")))
+        pi = "prepared-instance:" if (isinstance(bottom, dict) and "BPrepared" in bottom) else ""
         uf = obs["user_frames"]
         runs = [(n, len(list(g))) for n, g in itertools.groupby(uf)]
         names = [n for n, _ in runs]
@@ -490,7 +497,7 @@ def monitors(c, io, build):
         if names != wnames:
             missing = [n for n in wnames if n not in names]
             if missing:
-                site = "chain:missing-%s-frame" % ("level" if missing[0].startswith("lvl") else "raising" if missing[0].startswith("hlp") else "caller")
+                site = "chain:" + pi + "missing-%s-frame" % ("level" if missing[0].startswith("lvl") else "raising" if missing[0].startswith("hlp") else "caller")
             elif sorted(names) == sorted(wnames):
                 site = "chain:frames-out-of-call-order"
             elif names[-1] != wnames[-1]:
@@ -512,10 +519,10 @@ def monitors(c, io, build):
                 fs.append(dict(clause="format-error-total", site="format_error:%s:empty" % f["variant"].split(",")[0], msg="format_error returned nothing (%s)" % f["variant"]))
             elif f["names"] is not None and f["variant"].startswith(("stored-tb", "explicit-tb")):
                 # the printed traceback must show the level frames in call order
-                lv = [n for n in f["names"] if n.startswith(("lvl", "hlp"))]
+                lv = [n for n in f["names"] if n.startswith(("lvl", "hlp", "prep"))]
                 lv = [n for n, _ in itertools.groupby(lv)]
                 if lv != wnames[1:]:
-                    fs.append(dict(clause="format-error-faithful", site="format_error:%s:levels-missing-or-reordered" % f["variant"].split(",")[0],
+                    fs.append(dict(clause="format-error-faithful", site="format_error:%s%s:levels-missing-or-reordered" % (pi, f["variant"].split(",")[0]),
                                    msg="format_error (%s) lists %s, expected %s" % (f["variant"], lv[:30], wnames[1:][:30])))
     elif fam == "CStack":
         cs = c["tree"]["CStack"][0]
@@ -608,7 +615,7 @@ def distribution(cases):
                 m, h = mh[""]
                 d["chain_modes"][m] = d["chain_modes"].get(m, 0) + 1
                 d["chain_sync_levels"] += h == "HSync"
-            bk = t[1] if isinstance(t[1], str) else "BRaise%d" % t[1]["BRaise"][0]["n"]
+            bk = t[1] if isinstance(t[1], str) else "%s%d" % (next(iter(t[1])), next(iter(t[1].values()))[0]["n"])
             d["chain_bottom"][bk] = d["chain_bottom"].get(bk, 0) + 1
         elif fam == "CStack":
             b = bucket(len(t[0]))
